@@ -45,6 +45,8 @@ var c14Ops = []string{
 	"abort.list", "abort.get #1",
 	// attachment numbers that do not name an attachment of an existing message
 	"web.attach-bad #1",
+	// the same source fetched ten times over (REST and web UI alternating): nothing may run out
+	"source-x10 #1",
 }
 
 type c14Case struct {
@@ -318,6 +320,33 @@ func c14Exec(c *fw.Ctx, cas c14Case, from int) (key string, extend, nontrivial b
 			}
 			if r.Status != 200 || string(r.Body) != m.Body {
 				fail(vk(kind+"|differs"), fmt.Sprintf("%s answered %d with %d bytes; the store holds %d bytes", op, r.Status, len(r.Body), len(m.Body)))
+			}
+		case "source-x10":
+			id, m, kind := resolve(ref)
+			for i := 0; i < 10; i++ {
+				pfx := "rest"
+				if i%2 == 1 {
+					pfx = "web"
+				}
+				r := do("GET", api(pfx)+"/"+id+"/source", nil)
+				if !check {
+					continue
+				}
+				if r.Panic != nil {
+					fail(vk(kind+"|panic"), fmt.Sprintf("handler panicked: %v", r.Panic))
+					break
+				}
+				if m == nil {
+					if r.Status != 404 {
+						fail(vk(kind+fmt.Sprintf("|status-%d", r.Status)), fmt.Sprintf("source fetch %d of a message that does not exist answered %d, want 404", i+1, r.Status))
+						break
+					}
+					continue
+				}
+				if r.Status != 200 || string(r.Body) != m.Body {
+					fail(vk(kind+"|differs"), fmt.Sprintf("source fetch number %d of the same message answered %d with %d bytes; the store holds %d bytes", i+1, r.Status, len(r.Body), len(m.Body)))
+					break
+				}
 			}
 		case "web.attach-bad":
 			id, m, kind := resolve(ref)
